@@ -83,7 +83,9 @@ func c05alphabet() []c05op {
 			ops = append(ops, c05op{kind: "AddBefore", anchor: a, id: id})
 		}
 	}
-	for _, p := range []string{"id=a", "none", "all", "odd"} {
+	// "not-first" and "until-b" carry state from one element to the next (drop the first element
+	// only; keep elements until the first b): a filter looks at every element once, in order
+	for _, p := range []string{"id=a", "none", "all", "odd", "not-first", "until-b"} {
 		ops = append(ops, c05op{kind: "Filter", pred: p})
 	}
 	return ops
@@ -97,6 +99,17 @@ func predFn(p string) func(id string, ser int) bool {
 		return func(string, int) bool { return false }
 	case "all":
 		return func(string, int) bool { return true }
+	case "not-first":
+		n := 0
+		return func(string, int) bool { n++; return n != 1 }
+	case "until-b":
+		stop := false
+		return func(id string, _ int) bool {
+			if id == "b" {
+				stop = true
+			}
+			return !stop
+		}
 	default:
 		return func(_ string, ser int) bool { return ser%2 == 1 }
 	}
@@ -569,20 +582,33 @@ func runHandlerSeq(n0 int, steps []c05step) (res c05bResult) {
 		}
 		tr.Status = st.status
 		var heads, afters, tails []refTask
+		// The three lists a handler returns are sub-slices of ONE backing array with spare
+		// capacity (a handler that builds all its tasks in one slice and hands out parts of it):
+		// the queue must copy what it is given, not adopt or append to the handler's memory.
+		all := make([]task.Task, 0, st.nHead+st.nAfter+st.nTail+8)
 		for i := 0; i < st.nHead; i++ {
 			nt, rt := newTask()
-			tr.HeadTasks = append(tr.HeadTasks, nt)
+			all = append(all, nt)
 			heads = append(heads, rt)
 		}
 		for i := 0; i < st.nAfter; i++ {
 			nt, rt := newTask()
-			tr.AfterTasks = append(tr.AfterTasks, nt)
+			all = append(all, nt)
 			afters = append(afters, rt)
 		}
 		for i := 0; i < st.nTail; i++ {
 			nt, rt := newTask()
-			tr.TailTasks = append(tr.TailTasks, nt)
+			all = append(all, nt)
 			tails = append(tails, rt)
+		}
+		if st.nHead > 0 {
+			tr.HeadTasks = all[:st.nHead]
+		}
+		if st.nAfter > 0 {
+			tr.AfterTasks = all[st.nHead : st.nHead+st.nAfter]
+		}
+		if st.nTail > 0 {
+			tr.TailTasks = all[st.nHead+st.nAfter:]
 		}
 		if st.delay {
 			tr.DelayBeforeNextTask = 30 * time.Microsecond
